@@ -57,7 +57,13 @@ def code_name(c) -> str:
 
 def declared_meta(type_sql: str) -> dict:
     """{'codes': allowed type codes, 'precision': int|None (None = not demanded), 'scale': int|None}"""
-    t = TYPE_BY_NAME[type_sql]
+    t = TYPE_BY_NAME.get(type_sql)
+    if t is None:
+        # NUMBER(p[,s]) with any precision / scale (only the spellings of the property statement are in TYPES)
+        m = re.fullmatch(r"(?:NUMBER|DECIMAL|NUMERIC)\((\d+)(?:,\s*(\d+))?\)", type_sql)
+        if not m:
+            raise KeyError(type_sql)
+        return {"codes": {CODE["FIXED"]}, "precision": int(m.group(1)), "scale": int(m.group(2) or 0)}
     f = t["family"]
     if f == "bool":
         return {"codes": {CODE["BOOLEAN"]}, "precision": None, "scale": None}
@@ -102,32 +108,35 @@ def declared_mismatch(type_sql: str, type_code, precision, scale) -> set:
 
 
 def pytype(v) -> str:
+    """Exact Python type of a fetched value (`type(v) is`, never isinstance: Decimal('0') == 0 and True == 1, a subclass
+    or a look-alike is not what the connector hands out)."""
     if v is None:
         return "None"
-    if isinstance(v, bool):
+    t = type(v)
+    if t is bool:
         return "bool"
-    if isinstance(v, int):
+    if t is int:
         return "int"
-    if isinstance(v, float):
+    if t is float:
         return "float"
-    if isinstance(v, decimal.Decimal):
+    if t is decimal.Decimal:
         return "Decimal"
-    if isinstance(v, str):
+    if t is str:
         return "str"
-    if isinstance(v, (bytes, bytearray)):
+    if t is bytes or t is bytearray:
         return "bytes"
-    if isinstance(v, dt.datetime):
+    if t is dt.datetime:
         return "datetime_aware" if v.tzinfo is not None else "datetime_naive"
-    if isinstance(v, dt.date):
+    if t is dt.date:
         return "date"
-    if isinstance(v, dt.time):
+    if t is dt.time:
         return "time"
-    return type(v).__name__
+    return t.__name__
 
 
 def _digits(v) -> int:
     """number of decimal digits needed for the coefficient of an int / finite Decimal"""
-    if isinstance(v, int):
+    if type(v) is int:
         return len(str(abs(v)))
     t = v.as_tuple()
     return len(t.digits)
@@ -192,9 +201,9 @@ def value_consistency(v, type_code, precision, scale) -> set:
         return set() if name in ("TIMESTAMP_TZ", "TIMESTAMP_LTZ") else {"code"}
     # the Python representation of semi-structured values is C11's business: a list / dict (instead of the connector's
     # JSON text) is only required to sit under a semi-structured type code
-    if isinstance(v, list):
+    if type(v) is list:
         return set() if name in ("ARRAY", "VARIANT") else {"code"}
-    if isinstance(v, dict):
+    if type(v) is dict:
         return set() if name in ("OBJECT", "VARIANT") else {"code"}
     return {"pytype"}  # not a type the connector hands out (UUID, ...): nothing can describe it
 
